@@ -537,7 +537,7 @@ def run_equiv(case):
         return {**info, "bad": bad.items, "bad_total": bad.total(), "counts": dict(cnt), "sample": None}
     state = gen.state_of(desc)
     f_free, mag = ref.rate_law(desc, state, None)          # used for the step size and error scales only
-    maxrate = max([m / (abs(s) + 1.0) for m, s in zip(mag, state)] + [1e-3])
+    maxrate = ref.max_rate(desc, state)
     dt = 0.02 / maxrate
     nsteps = case.get("steps", 10)
     osys = gen.mild_sys(r)
